@@ -488,3 +488,35 @@ func toJSON(v any) string {
 }
 
 var rng *rand.Rand
+
+// textCases: text-only cases (model = implementation, no reference expression) that accompany the reference cases of a
+// property whose checker is Checks/Spec.v (which re-exports Checks/Basic.v). Shard numbers start at 500, case ids at
+// 900000, so that they never meet those of the main stream.
+type textCases struct {
+	sh  *Shards
+	sum *Summary
+	id  int
+}
+
+func newTextCases(prop, out string, sum *Summary) *textCases {
+	return &textCases{sh: &Shards{dir: out, prop: prop, imports: "Checks.Spec", ctype: "bcase", runner: "basic_run", per: 300, n: 500}, sum: sum, id: 900000}
+}
+
+func (t *textCases) add(expr string, doc any, o Obs) {
+	t.id++
+	t.sh.Add(fmt.Sprintf("BC %d %s %s %s %s", t.id, hx(expr), coqValue(doc), hasEnumText(expr), coqObs(o)))
+	t.sum.Index[fmt.Sprint(t.id)] = map[string]any{"expr": expr, "doc": toJSON(doc), "observed": obsJSON(o)}
+}
+
+// run: search and record
+func (t *textCases) run(expr string, doc any) Obs {
+	o := search(expr, doc)
+	t.add(expr, doc, o)
+	return o
+}
+
+func (t *textCases) done() {
+	t.sh.Flush()
+	t.sum.Shards = append(t.sum.Shards, t.sh.files...)
+	t.sum.Cases += t.sh.total
+}
